@@ -420,3 +420,41 @@ def check(facts, rep, tier, cfg):
                             rep.ok("C01.R9", "payload-unmodified/%s#%d" % (b.path.split("::{")[0], k9), where, "data <- receive buffer / parser payload via conversions only")
         rep.floor("C01.R9", "Datagram construction sites", k9, 3)
 
+    # ---- R10 a per-flow forwarder that has exited is forgotten, so the next datagram of that flow starts a new one
+    if has_server:
+        rep.rule("C01.R10", "server: when the hand-off to a flow's forwarder fails with Closed (forwarder pruned), the flow's entry is removed "
+                            "from the routing table; otherwise every later datagram of that flow is discarded")
+        k10 = 0
+        for b in crate.bodies:
+            if "/src/server/websocket.rs" not in b.file:
+                continue
+            tr = None
+            for gb in range(len(b.blocks)):
+                if b.term(gb)["k"] != "SwitchInt":
+                    continue
+                tr = tr or Tracer(facts, b)
+                g = guard_at(facts, b, tr, gb)
+                if g is None or g.kind != "discr" or not g.adt or not g.adt.endswith("TrySendError"):
+                    continue
+                k10 += 1
+                rep.analysed(b)
+                where = "%s (%s)" % (loc_str(b.term(gb)["loc"]), b.path)
+                closed = [succ for succ, v in g.edges if v == "Closed"]
+                rem = [bi for bi, t in b.calls() if callee(t) and callee(t)["name"] == "remove" and "Sender<penguin_mux::Datagram>" in callee(t)["path"]]
+                ok = bool(closed) and any(b.edge_dominates((gb, c), r) or r == c for c in closed for r in rem)
+                if ok:
+                    rep.ok("C01.R10", "pruned-forwarder-forgotten", where, "Closed => udp_clients.remove(flow_id)")
+                else:
+                    rep.bad("C01.R10", "pruned-forwarder-forgotten", where,
+                            "when the per-flow forwarder has exited (try_send -> Closed) its entry stays in the routing table: the flow is "
+                            "black-holed for as long as the client keeps using the same id")
+        if k10 == 0:
+            ts = [(b, bi, t) for b in crate.bodies if "/src/server/websocket.rs" in b.file for bi, t in b.calls()
+                  if callee(t) and callee(t)["name"] == "try_send" and "Sender::<penguin_mux::Datagram>" in callee(t)["path"]]
+            if ts:
+                b0, bi0, t0 = ts[0]
+                rep.bad("C01.R10", "pruned-forwarder-forgotten", "%s (%s)" % (loc_str(t0["loc"]), b0.path),
+                        "the result of handing a datagram to the flow's forwarder is not matched on Closed anywhere in the server loop: when the "
+                        "forwarder has exited its entry stays in the routing table and the flow is black-holed")
+            else:
+                rep.floor("C01.R10", "hand-off sites in the server loop", 0, 1)
